@@ -16,6 +16,20 @@ Theorem C20_stop_times_read_back : forall j, Forall clean_trip j ->
 Proof. exact export_stop_times_reads_back. Qed.
 Print Assumptions C20_stop_times_read_back.
 
+(* row counts, as the property words them: one row per journal trip, one per journal stop time (plus the header) *)
+Theorem C20_row_counts : forall j,
+  List.length (header_trips :: map trip_cells j) = S (List.length j) /\
+  List.length (header_stops :: stop_rows j) = S (list_sum (map (fun t => List.length (jt_stops t)) j)).
+Proof. intros j. split; [exact (trips_table_length j)|exact (stops_table_length j)]. Qed.
+Print Assumptions C20_row_counts.
+(* "each stop-time row keyed by its trip's UID": the rows read back can be joined to their trips - selecting the rows whose
+   first cell is the UID of a journal trip gives exactly that trip's stop times, in journal order, for every journal whose
+   UIDs are pairwise distinct (C15_sorted_nodup: every journal BuildJournal returns) *)
+Theorem C20_rows_join_by_uid : forall j, NoDup (map jt_uid j) -> forall t, In t j ->
+  filter (key_is (jt_uid t)) (stop_rows j) = map (stop_cells (jt_uid t)) (jt_stops t).
+Proof. exact stop_rows_join. Qed.
+Print Assumptions C20_rows_join_by_uid.
+
 (* the values: every integer cell (Unix seconds, counters) reads back as the number; absent optionals are empty cells;
    direction is 0 / 1 / blank; strings are verbatim by definition of trip_cells / stop_cells *)
 Theorem C20_integers_read_back : forall z, read_Z (show_Z z) = z.
